@@ -409,8 +409,7 @@ def document_corr(ctx: vlib.Ctx):
                         _ann, dflt, tid, nullable = KINDS[kind]
                         d = "DNo" if dflt is None else f"(DVal {enc(eval(dflt))})"
                         al = "None" if alias is None else f"(Some {vlib.coq_str(alias)})"
-                        ds.append("{| d_plan := {| p_name := " + vlib.coq_str(name) + f"; p_alias := {al}; p_tynull := {'true' if nullable else 'false'}; "
-                                  f"p_trivial := false; p_default := {d}; p_omit := false |}}; d_ty := {tid} |}}")
+                        ds.append("{| d_plan := mk_plan " + vlib.coq_str(name) + f" {al} {'true' if nullable else 'false'} {d}; d_ty := {tid} |}}")
                     def enc_usr(u):
                         if u is None:
                             return "None"
